@@ -2,7 +2,7 @@
 from .. import core, extract
 from ..core import Suite
 
-LEAN_TARGETS = ['Uds.Props.C18', 'Uds.Tie.Editions']
+LEAN_TARGETS = ['Uds.Props.C18', 'Uds.Tie.Editions', 'Uds.Tie.Groups']
 ASSUMPTIONS = [
     'editions of features as the property and the code comments state them: 2020 for the eight ReadDTCInformation subfunctions and for MemorySelection on '
     'ClearDiagnosticInformation; 2013 for nodeIdentificationNumber and for the timing bytes of the session-change reply',
@@ -14,7 +14,7 @@ RULE = ('exhaustive: the service-level matrix is extracted from the running code
 
 
 def generate(ctx):
-    extract.generate(['Editions'])
+    extract.generate(['Editions', 'Groups'])
 
 
 ALL_PARAMS = dict(status_mask=0x0F, severity_mask=0x20, dtc=0x123456, snapshot_record_number=1, extended_data_record_number=2,
